@@ -262,12 +262,21 @@ def r_lookup_and_separate(ctx):
             for s in stmts:
                 if isinstance(s, ast.If):
                     t = s.test
+                    pos, neg = s.body, s.orelse
+                    while isinstance(t, ast.UnaryOp) and isinstance(t.op, ast.Not):
+                        t = t.operand
+                        pos, neg = neg, pos
+                    if isinstance(t, ast.Compare) and len(t.ops) == 1 and isinstance(t.comparators[0], ast.Constant) and t.comparators[0].value is None \
+                            and isinstance(t.ops[0], (ast.Is, ast.IsNot)):
+                        if isinstance(t.ops[0], ast.Is):
+                            pos, neg = neg, pos
+                        t = t.left
                     if isinstance(t, ast.Call) and call_name(t) == LOOKUP and dotted(t.func.value) == f:
-                        walk(s.body, dict(facts, ev=True))
-                        walk(s.orelse, dict(facts, ev=False))
+                        walk(pos, dict(facts, ev=True))
+                        walk(neg, dict(facts, ev=False))
                     elif dotted(t) == "%s.reuse_gradient" % f:
-                        walk(s.body, dict(facts, re=True))
-                        walk(s.orelse, dict(facts, re=False))
+                        walk(pos, dict(facts, re=True))
+                        walk(neg, dict(facts, re=False))
                     else:
                         table[("?", src(t))] = "unrecognised test"
                 elif isinstance(s, ast.Expr) and isinstance(s.value, ast.Call) and call_name(s.value) == "append":
@@ -408,6 +417,8 @@ def _rem_body(stmts, env, ints, fvar, i, samples, p):
             env[s.targets[0].id] = _Rem(env).ev(s.value)
         elif isinstance(s, ast.AugAssign) and isinstance(s.target, ast.Name) and s.target.id in ints and is_const(s.value, 1):
             ints[s.target.id] += 1
+        elif isinstance(s, ast.AugAssign) and isinstance(s.target, ast.Name) and s.target.id in env:
+            env[s.target.id] = _Rem(env).ev(ast.BinOp(left=ast.Name(id=s.target.id, ctx=ast.Load()), op=s.op, right=s.value))
         elif isinstance(s, ast.Expr) and isinstance(s.value, ast.Call) and call_name(s.value) == "add_point" and dotted(s.value.func.value) == fvar:
             a = s.value.args[0]
             if not (isinstance(a, ast.Tuple) and len(a.elts) == 3 and dotted(a.elts[0]) == p):
